@@ -69,12 +69,18 @@ func (fr *frame) execInstr(in ssa.Instruction, st *State, reach string, b *ssa.B
 			lv := &LVal{kind: lvCell, name: name, rootT: et, typ: et}
 			u.heapSet(st, name, s.sortOf(et), s.zero(et))
 			fr.vals[x] = &Val{lv: lv}
+			if bn := fr.localBuilder(x); bn != "" {
+				u.heapSet(st, bn, "String", "\"\"")
+			}
 			return
 		}
 		ref := fr.allocRef(st)
 		lv := &LVal{kind: lvHeap, name: "H:" + s.typeKey(et), ref: ref, rootT: et, typ: et}
 		u.write(st, lv, s.zero(et))
 		fr.vals[x] = &Val{t: ref, lv: lv}
+		if name := fr.localBuilder(x); name != "" {
+			u.heapSet(st, name, "String", "\"\"")
+		}
 	case *ssa.FieldAddr:
 		pv := fr.valOf(x.X)
 		fr.nilCheck(x.X, pv, reach, x.Pos())
